@@ -1094,7 +1094,7 @@ impl Compiler {
         if !params.is_empty() {
             func_compiler
                 .builder
-                .reserve_registers(params.len() as u8)?;
+                .reserve_register_window(params.len())?;
         }
 
         // Compile parameter declarations
@@ -2027,7 +2027,7 @@ impl Compiler {
         if !ctor.params.is_empty() {
             func_compiler
                 .builder
-                .reserve_registers(ctor.params.len() as u8)?;
+                .reserve_register_window(ctor.params.len())?;
         }
 
         // Compile parameter declarations inline (same as compile_function_body)
@@ -2685,11 +2685,9 @@ impl Compiler {
                     current_value = *n as i64 + 1;
                 }
             } else {
-                // Use auto-increment value
-                self.builder.emit(Op::LoadInt {
-                    dst: value_reg,
-                    value: current_value as i32,
-                });
+                // Use auto-increment value (as a number: it may not fit LoadInt's i32)
+                self.builder
+                    .emit_load_number(value_reg, current_value as f64)?;
                 current_value += 1;
             }
 
